@@ -57,6 +57,11 @@ def t1_view_kind_to_claim(prog):
             continue
         fns = [f for f in prog.impl_methods(imp) if f.name == 'claims']
         if not fns:
+            tr = prog.traits.get(imp['trait']['path'])
+            if tr and any(it['name'] == 'claims' for it in tr['items']):
+                r.inst('%s::claims[%s] (trait default)' % (imp['trait']['path'], ty_str(imp['self'])))
+                r.viol('T1', '%s/%s/relies-on-default-claims' % (imp['trait']['path'], '|'.join(ty_str(a) for a in trait_args(imp))), impl_loc(imp),
+                       'this view impl does not define claims() and falls back to a trait default: neither the claim of its own view kind nor the claims of the tail of the list are published (later resources/components are unclaimed)')
             continue
         f = fns[0]
         ta = trait_args(imp)
@@ -409,6 +414,27 @@ def exposures(prog, st, depth=0, seen=frozenset()):
             if item is not None:
                 for ps, pr, rc in value_sources(item, list(other['predicates']), 'own', None, depth, seen, other['self']):
                     out.append((rename_params(ps, other['self'], st), rename_preds(pr, other['self'], st), rc))
+    if depth == 0:
+        # safe trait impls with `&self` methods (Clone, PartialEq, Debug, Serialize, ...) read the stored user data
+        # through a shared reference: every parameter their bounds mention is exposed to `&T` holders
+        for other in prog.facts['impls']:
+            if other['self'].get('k') != 'adt' or other['self']['path'] != path or not other['trait'] or other['unsafe']:
+                continue
+            if other['trait']['path'] in _ITEM_TRAITS or other['trait']['path'].startswith('core::marker::') or other['trait']['path'] in ('core::ops::Drop',):
+                continue
+            has_ref_method = False
+            for f in prog.impl_methods(other):
+                ins = f.d.get('inputs') or []
+                if ins and ins[0].get('k') == 'ref' and not ins[0]['mut'] and ty_eq(ins[0]['t'], other['self']):
+                    has_ref_method = True
+            if not has_ref_method:
+                continue
+            ps = set()
+            for q in other['predicates']:
+                if q['k'] == 'trait' and q['self'].get('k') == 'param' and not q['trait'].startswith('core::marker::'):
+                    ps.add(q['self']['name'])
+            if ps:
+                out.append((rename_params(ps, other['self'], st), [], 'ref'))
     for f in prog.fns.values():
         if f.kind != 'AssocFn' or f.impl is None:
             continue
